@@ -61,6 +61,19 @@ ExportSegs(ty, p) == CASE ty = "LweParams"  -> ExpLweParams
                    [] ty = "GateParams" -> ExpGateParams
                    [] ty = "CloudKey"   -> ExpCloudSegs(p)
                    [] ty = "SecretKey"  -> ExpSecretSegs(p)
+\* Canonical form, independent of how the writer groups its calls: text sections stay line by line, every maximal run of binary segments becomes ONE
+\* call carrying the total length and the first type tag.  (Recorded exports are tokenised from their bytes in the same way.)
+IsTextSeg(sg) == sg.pat[1].c # "w"
+RECURSIVE PatBytes(_, _)
+PatBytes(pat, i) == IF i > Len(pat) THEN 0 ELSE pat[i].len + PatBytes(pat, i + 1)
+SegBytes(sg) == sg.cnt * PatBytes(sg.pat, 1)
+Run(len, tag) == One(<<[c |-> "w", s |-> "", len |-> len, tag |-> tag]>>)
+RECURSIVE CanonFrom(_, _, _, _)
+CanonFrom(segs, i, acc, tag) ==
+    IF i > Len(segs) THEN (IF tag = -2 THEN <<>> ELSE Run(acc, tag))
+    ELSE IF IsTextSeg(segs[i]) THEN (IF tag = -2 THEN <<>> ELSE Run(acc, tag)) \o <<segs[i]>> \o CanonFrom(segs, i + 1, 0, -2)
+    ELSE CanonFrom(segs, i + 1, acc + SegBytes(segs[i]), IF tag = -2 THEN segs[i].pat[1].tag ELSE tag)
+Canon(segs) == CanonFrom(segs, 1, 0, -2)
 \* the flat call sequence
 FlatSeg(sg) == [i \in 1..(sg.cnt * Len(sg.pat)) |-> sg.pat[((i - 1) % Len(sg.pat)) + 1]]
 RECURSIVE Flat(_, _)
